@@ -7,18 +7,67 @@ put into connected was a direct neighbour at that moment, other peers did not mo
 TEST = '''package multicast
 
 import (
+	"bytes"
+	"context"
 	"math/rand"
 	"sync"
 	"testing"
+	"time"
 
 	"github.com/gauss-project/aurorafs/pkg/aurora"
 	"github.com/gauss-project/aurorafs/pkg/boson"
 	"github.com/gauss-project/aurorafs/pkg/boson/test"
 	"github.com/gauss-project/aurorafs/pkg/multicast/model"
+	"github.com/gauss-project/aurorafs/pkg/multicast/pb"
+	"github.com/gauss-project/aurorafs/pkg/p2p"
+	"github.com/gauss-project/aurorafs/pkg/p2p/protobuf"
 	mockRoute "github.com/gauss-project/aurorafs/pkg/routetab/mock"
 	"github.com/gauss-project/aurorafs/pkg/subscribe"
 	"github.com/gauss-project/aurorafs/pkg/topology/kademlia/mock"
 )
+
+// flooding part: every peer is a neighbour, streams opened for multicast are counted per
+// destination, deliveries to the group's subscribers are counted
+type verifAllNb struct{ mockRoute.MockRouteTable }
+
+func (verifAllNb) IsNeighbor(boson.Address) bool { return true }
+
+type verifBuf struct{ bytes.Buffer }
+
+func (*verifBuf) Close() error                 { return nil }
+func (*verifBuf) FullClose() error             { return nil }
+func (*verifBuf) Reset() error                 { return nil }
+func (*verifBuf) Headers() p2p.Headers         { return nil }
+func (*verifBuf) ResponseHeaders() p2p.Headers { return nil }
+
+type verifCountStreamer struct {
+	mu   sync.Mutex
+	sent int
+}
+
+func (d *verifCountStreamer) open(stream string) (p2p.Stream, error) {
+	d.mu.Lock()
+	if stream == streamMulticast { d.sent++ }
+	d.mu.Unlock()
+	return &verifBuf{}, nil
+}
+func (d *verifCountStreamer) NewStream(_ context.Context, _ boson.Address, _ p2p.Headers, _, _, stream string) (p2p.Stream, error) { return d.open(stream) }
+func (d *verifCountStreamer) NewRelayStream(_ context.Context, _ boson.Address, _ p2p.Headers, _, _, stream string, _ bool) (p2p.Stream, error) { return d.open(stream) }
+func (d *verifCountStreamer) NewConnChainRelayStream(_ context.Context, _ boson.Address, _ p2p.Headers, _, _, stream string) (p2p.Stream, error) { return d.open(stream) }
+
+type verifCountPub struct {
+	mu        sync.Mutex
+	delivered int
+}
+
+func (p *verifCountPub) Subscribe(subscribe.INotifier, string, string, string) error { return nil }
+func (p *verifCountPub) Publish(ns, kind, _ string, _ interface{}) error {
+	p.mu.Lock()
+	if ns == "group" && kind == "multicastMsg" { p.delivered++ }
+	p.mu.Unlock()
+	return nil
+}
+func (p *verifCountPub) PublishArray(string, string, string, []interface{}) error { return nil }
 
 type verifRoute struct {
 	mockRoute.MockRouteTable
@@ -33,7 +82,7 @@ func verifWhere(g *Group, p boson.Address) (c, k, kn bool) {
 }
 
 func TestVerifReplay(t *testing.T) {
-	for seed := int64(1); seed <= 8; seed++ {
+	for seed := int64(1); seed <= 3; seed++ {
 		rnd := rand.New(rand.NewSource(seed))
 		route := &verifRoute{nb: map[string]bool{}}
 		s := NewService(test.RandomAddress(), aurora.NewModel(), nil, nil, mock.NewMockKademlia(), route, logger, subscribe.NewSubPub(), Option{Dev: true})
@@ -41,7 +90,19 @@ func TestVerifReplay(t *testing.T) {
 		g := s.newGroup(gid, model.ConfigNodeGroup{Name: "verif-c38", GType: model.GTypeJoin})
 		var peers []boson.Address
 		for i := 0; i < 4; i++ { peers = append(peers, test.RandomAddress()) }
-		for step := 0; step < 60; step++ {
+		// deterministic prelude: connected as a neighbour, the neighbour is lost, added again
+		{
+			p := peers[0]
+			route.mu.Lock(); route.nb[p.String()] = true; route.mu.Unlock()
+			g.add(p, true)
+			route.mu.Lock(); route.nb[p.String()] = false; route.mu.Unlock()
+			g.add(p, true)
+			if c, _, _ := verifWhere(g, p); c {
+				t.Logf("REPLAY-CONFIRMED add(peer, keep) after the peer stopped being a direct neighbour leaves it listed as connected"); return
+			}
+			g.remove(p, false)
+		}
+		for step := 0; step < 40; step++ {
 			p := peers[rnd.Intn(len(peers))]
 			type w struct{ c, k, kn bool }
 			before := map[string]w{}
@@ -78,6 +139,34 @@ func TestVerifReplay(t *testing.T) {
 				if !keep && !kn { t.Logf("REPLAY-CONFIRMED add(peer, !keep) did not put it into the known list"); return }
 			}
 			if op == 2 && (c || k || (kn && !into)) { t.Logf("REPLAY-CONFIRMED remove left the peer in connected/kept (or in known although not asked)"); return }
+		}
+	}
+	// ---- flooding: the same (origin, id) reaches a member from two neighbours shortly after one
+	// another; whatever creation time the message states, it is delivered once and forwarded in
+	// one round only
+	for i, age := range []time.Duration{0, 2 * time.Minute, 24 * time.Hour} {
+		streamer := &verifCountStreamer{}
+		pub := &verifCountPub{}
+		s := NewService(test.RandomAddress(), aurora.NewModel(), nil, streamer, mock.NewMockKademlia(), &verifAllNb{}, logger, pub, Option{Dev: true})
+		gid := GenerateGID("verif-c38-flood")
+		g := s.newGroup(gid, model.ConfigNodeGroup{Name: "verif-c38-flood", GType: model.GTypeJoin})
+		g.multicastSub = true
+		a, b, c := test.RandomAddress(), test.RandomAddress(), test.RandomAddress()
+		for _, p := range []boson.Address{a, b, c} { g.add(p, true) }
+		origin := test.RandomAddress()
+		created := time.Now().Add(-age).UnixMilli()
+		if i == 2 { created = 0 }
+		receive := func(from boson.Address) {
+			st := &verifBuf{}
+			if err := protobuf.NewWriter(st).WriteMsg(&pb.MulticastMsg{Id: uint64(100 + i), CreateTime: created, Origin: origin.Bytes(), Gid: gid.Bytes(), Data: []byte("x")}); err != nil { t.Fatal(err) }
+			_ = s.onMulticast(context.Background(), p2p.Peer{Address: from}, st)
+		}
+		receive(a)
+		d1, f1 := pub.delivered, streamer.sent
+		time.Sleep(20 * time.Millisecond)
+		receive(b)
+		if pub.delivered != d1 || streamer.sent != f1 || d1 != 1 {
+			t.Logf("REPLAY-CONFIRMED a multicast message stating creation time %v (now-%v) arriving from two neighbours within 20 ms is delivered %d times and forwarded in %d sends (first arrival: %d delivery, %d sends)", created, age, pub.delivered, streamer.sent, d1, f1); return
 		}
 	}
 	t.Logf("not reproduced")
